@@ -473,7 +473,7 @@ PRED = ["perp_lines2", "perp_lines3", "perp_planes", "parallel_lines2", "paralle
 def pred_case(draw, tier="quick"):
     return {"cfg": draw(st.sampled_from(PRED)), "truth": draw(st.booleans()), "v": [draw(C.ints(6)) for _ in range(16)], "s": [draw(C.scale()) for _ in range(2)],
             "k": draw(st.sampled_from([1, 2, -1, 3])), "coll": draw(st.sampled_from([0, 0, 0, 2, 2, 64, 70, "8x8"])), "pyth": [draw(st.integers(0, 5)) for _ in range(4)],
-            "far": draw(st.sampled_from([0, 0, 14, 17])), "farp": draw(st.sampled_from([0, 0, 1000, 3000, 6000]))}
+            "far": draw(st.sampled_from([0, 0, 14, 17])), "farp": draw(st.sampled_from([0, 0, 1000, 3000, 6000])), "via_perp": draw(st.sampled_from([False, False, True]))}
 
 
 UNIT = [(3, 4, 5), (4, 3, 5), (-3, 4, 5), (5, 12, 13), (-5, -12, 13), (0, 1, 1), (1, 0, 1), (8, -15, 17), (-4, -3, 5), (12, -5, 13)]
@@ -568,7 +568,16 @@ def run_pred(c):
             if np.linalg.matrix_rank(np.stack([d, e])) < 2:
                 raise Skip("parallel")
             l, m = Line(P(a), P(a + d)), Line(P(a), P(a + e))
-            r, f = call(site, angle_bisectors, two(Line(l.array * s[0])), Line(m.array * s[1]))
+            m_arg = Line(m.array * s[1])
+            if c.get("via_perp"):
+                # the second line as the library itself constructs it: the perpendicular through a of an auxiliary line (a line with
+                # purely imaginary coefficients - the same real line, given by a representative with a complex phase)
+                aux = Line(P(a + e), P(a + e + np.array([-e[1], e[0]])))
+                m_arg, f = call(site + ":construct", aux.perpendicular, P(a))
+                if f:
+                    return [f]
+                site += ":second-line-from-perpendicular()"
+            r, f = call(site, angle_bisectors, two(Line(l.array * s[0])), m_arg)
             if f:
                 return [f]
             B1, B2 = r
@@ -966,9 +975,9 @@ LAWS = [
     Law("predicates_mixed_collections", lambda tier: mixed_case(tier), run_mixed, lambda c: len({p["mode"] for p in c["pos"]}) > 1,
         lambda c: [c["what"]] + sorted({p["mode"] for p in c["pos"]}), {"quick": 800, "thorough": 15000},
         "is_collinear/is_concurrent (4 arguments) and is_coplanar (5 arguments) on collections whose positions have different truth values", shard=300),
-    Law("predicates", lambda tier: pred_case(tier), run_pred, lambda c: True, lambda c: [c["cfg"], "true" if c["truth"] else "false"] + (["far-from-origin"] if c.get("far") and not c["truth"] and c["cfg"].startswith("parallel") else []) + (["perp_planes:false:far-from-origin"] if c.get("farp") and not c["truth"] and c["cfg"] == "perp_planes" else []) + ([f"{c['cfg']}:collection>=64"] if c["coll"] in (64, 70, "8x8") else []), {"quick": 3500, "thorough": 50000},
+    Law("predicates", lambda tier: pred_case(tier), run_pred, lambda c: True, lambda c: [c["cfg"], "true" if c["truth"] else "false"] + (["far-from-origin"] if c.get("far") and not c["truth"] and c["cfg"].startswith("parallel") else []) + (["perp_planes:false:far-from-origin"] if c.get("farp") and not c["truth"] and c["cfg"] == "perp_planes" else []) + (["bisectors2:second-line-from-perpendicular()"] if c.get("via_perp") and c["cfg"] == "bisectors2" else []) + ([f"{c['cfg']}:collection>=64"] if c["coll"] in (64, 70, "8x8") else []), {"quick": 3500, "thorough": 50000},
         "is_perpendicular / is_parallel / is_cocircular / is_collinear / is_coplanar / is_concurrent exact truth values; angle_bisectors", shard=400,
-        mandatory=("perp_lines2:collection>=64", "perp_lines3:collection>=64", "cocircular:collection>=64", "bisectors2:collection>=64", "cocircular3", "cocircular1", "perp_planes:false:far-from-origin")),
+        mandatory=("perp_lines2:collection>=64", "perp_lines3:collection>=64", "cocircular:collection>=64", "bisectors2:collection>=64", "cocircular3", "cocircular1", "perp_planes:false:far-from-origin", "bisectors2:second-line-from-perpendicular()")),
 ]
 
 
